@@ -391,10 +391,19 @@ def check_variants(which: int) -> bool:
                 xtuml.persist_database(dom, p)          # what gen_sql_schema writes
                 l = xtuml.ModelLoader(); l.filename_input(p)
                 back = schema_sig(l.build_metamodel())
+                # a class that ends up WITHOUT attributes (all of its attributes are derived and derived attributes were
+                # not asked for) is still a class of the component: the written schema must define it
+                dom.define_class('Zz_Gauge', [])
+                p2 = os.path.join(d, 'schema2.sql')
+                xtuml.persist_database(dom, p2)
+                l2 = xtuml.ModelLoader(); l2.filename_input(p2)
+                back2 = schema_sig(l2.build_metamodel())
             finally:
                 shutil.rmtree(d, ignore_errors=True)
         if back != exp and back != BASE:
             LAST_DIFF = ('schema written for the component does not load back', back, BASE); return False
+        if back2['classes'].get('ZZ_GAUGE') != [] or {k: v for k, v in back2['classes'].items() if k != 'ZZ_GAUGE'} != back['classes']:
+            LAST_DIFF = ('a class without attributes is missing from the written schema', sorted(back2['classes'])); return False
     return True
 
 
